@@ -27,13 +27,15 @@ ASSUMPTIONS = [
 
 def limit_forms():
     P = MP.part
-    sizes = [b"", b"a", b"abcd"]
+    sizes = [b"", b"a", b"abcd", "é中".encode()]
     forms = [[]]
     for a in sizes:
         forms.append([P("f", None, a)])
     for a, b in itertools.product(sizes, repeat=2):
         forms.append([P("f", None, a), P("u", "fn", b"FILEDATA"), P("g", None, b)])
     forms.append([P("u", "fn", b"0123456789")])
+    forms.append([P("f", None, "ééé".encode()), P("g", None, b"tail"), P("u", "fn", b"last is a file")])
+    forms.append([P("u", "fn", b"first is a file"), P("f", None, "中中".encode()), P("v", "fn2", b"")])
     return forms
 
 
@@ -49,7 +51,7 @@ def shards(tier, seed):
     n = len(MP.corpus_bfs(tier))
     per = 4 if tier == "quick" else 6
     out += [("buffer", i, min(i + per, n)) for i in range(0, n, per)]
-    out += [("helperbuf", k) for k in range(4)]
+    out += [("helperbuf", k) for k in range(6)]
     out.append(("scaled",))
     return out
 
@@ -154,7 +156,8 @@ def run_helperbuf(r, k):
     from ..core.vloop import run_coro
 
     boundary = b"bound"
-    lead = [b"\r", b"\n", b"\r\r\n", b"x\n"][k]
+    # the last two: the bare boundary token (without the leading dashes) inside the content, after a line break
+    lead = [b"\r", b"\n", b"\r\r\n", b"x\n", b"\r\nboundary=bound ", b"\nbound\tbound-"][k]
     run = 600
     for as_file in (True, False):
         content = lead + b"q" * run
@@ -204,7 +207,7 @@ def run_scaled(r, tier):
     total = (1 << 20) if tier == "thorough" else (1 << 18)
     chunk = 1 << 16 if tier == "thorough" else 1 << 14
     boundary = b"scaled-boundary"
-    for lead in (b"\r", b"\n"):
+    for lead in (b"\r", b"\n", b"\r\nboundary=" + boundary + b" "):
         dec = MultipartDecoder(boundary, "utf-8")
         head = b"--" + boundary + b"\r\nContent-Disposition: form-data; name=\"u\"; filename=\"big\"\r\n\r\n"
         dec.receive_data(head + lead)
